@@ -61,7 +61,7 @@ func (cb *CertificateBuilder) WithType(certType uint8) (*CertificateBuilder, err
 //   - signingType: The signing key type (e.g., 7 for Ed25519)
 //   - cryptoType: The crypto key type (e.g., 4 for X25519)
 //
-// Returns error if the key types are invalid (negative values).
+// Returns error if the key types are invalid (negative, or above the 2-byte range).
 //
 // Example:
 //
@@ -72,6 +72,14 @@ func (cb *CertificateBuilder) WithKeyTypes(signingType, cryptoType int) (*Certif
 	}
 	if cryptoType < 0 {
 		return cb, oops.Errorf("crypto type cannot be negative: %d", cryptoType)
+	}
+	// The types are written as 2-byte integers; like BuildKeyTypePayload, refuse
+	// values that would be truncated into a different key type.
+	if signingType > 65535 {
+		return cb, oops.Errorf("signing type exceeds uint16 range: %d", signingType)
+	}
+	if cryptoType > 65535 {
+		return cb, oops.Errorf("crypto type exceeds uint16 range: %d", cryptoType)
 	}
 	cb.certType = CERT_KEY
 	cb.signingType = &signingType
